@@ -1,12 +1,13 @@
 #!/usr/bin/env python3
-"""dev/seedcheck_all.py <round> [workers] — run dev/seedcheck.sh for all properties x {1,2} of a seeding round in parallel."""
+"""dev/seedcheck_all.py <round> [workers] [C01,C02,..] — run dev/seedcheck.sh for all properties x {1,2} of a seeding round in parallel."""
 import os, subprocess, sys, threading
 V = os.path.dirname(os.path.dirname(os.path.abspath(__file__)))
 rnd = sys.argv[1]; workers = int(sys.argv[2]) if len(sys.argv) > 2 else 4
-jobs = [("C%02d" % i, k) for i in range(1, 21) for k in (1, 2)]
+only = sys.argv[3].split(",") if len(sys.argv) > 3 else ["C%02d" % i for i in range(1, 21)]
+jobs = [(p, k) for p in only for k in (1, 2)]
 lock = threading.Lock()
 def work(w):
-    env = dict(os.environ, VERIF_TARGET_DIR="/tmp/seedcheck_target_%d" % w)
+    env = dict(os.environ, VERIF_TARGET_DIR="/tmp/seedcheck_target_%d_%d" % (os.getpid(), w))
     while True:
         with lock:
             if not jobs: return
@@ -18,4 +19,4 @@ def work(w):
 ts = [threading.Thread(target=work, args=(i,)) for i in range(workers)]
 [t.start() for t in ts]; [t.join() for t in ts]
 import shutil
-for i in range(workers): shutil.rmtree("/tmp/seedcheck_target_%d" % i, ignore_errors=True)
+for i in range(workers): shutil.rmtree("/tmp/seedcheck_target_%d_%d" % (os.getpid(), i), ignore_errors=True)
